@@ -35,6 +35,29 @@ def toSigned (w : Nat) (n : Nat) : Int :=
 def chunks (w : Nat) (count : Nat) (raw : Bytes) : List Bytes :=
   (List.range count).map fun i => (raw.drop (i * w)).take w
 
+/-- the same list computed in one pass (what the compiled driver runs: `chunks` itself re-walks the
+    payload for every entry, which is quadratic on megabyte payloads) -/
+def chunksFast (w : Nat) : Nat → Bytes → List Bytes
+  | 0, _ => []
+  | n + 1, raw => raw.take w :: chunksFast w n (raw.drop w)
+
+theorem chunks_eq_fast (w count : Nat) (raw : Bytes) : chunks w count raw = chunksFast w count raw := by
+  induction count generalizing raw with
+  | zero => simp [chunks, chunksFast]
+  | succ n ih =>
+    have := ih (raw.drop w)
+    unfold chunks at this ⊢
+    rw [List.range_succ_eq_map, List.map_cons, List.map_map, chunksFast, ← this]
+    simp only [Nat.zero_mul, List.drop_zero, List.cons.injEq, true_and]
+    apply List.map_congr_left
+    intro i _
+    simp only [Function.comp, List.drop_drop]
+    congr 2
+    rw [Nat.succ_mul]; omega
+
+@[csimp] theorem chunks_csimp : @chunks = @chunksFast := by
+  funext w count raw; exact chunks_eq_fast w count raw
+
 /-! ### Headers -/
 
 structure Header where
